@@ -261,8 +261,9 @@ def run(ctx):
             if fn.name in ADDERS or fn.name.startswith('__'):
                 continue
             res = analyse(fn)
-            rets = [(r, st) for r, st in res.returns if r.value is not None]
-            if rets and all(fresh_expr(r.value, st) for r, st in rets) and res.end is None:
+            rets = [(r, st) for r, st in res.returns if r.value is not None and not (isinstance(r.value, ast.Constant) and r.value.value is None)]
+            # `return None` next to fresh steps: "a fresh step or nothing" (the caller tests for None)
+            if rets and all(fresh_expr(r.value, st) for r, st in rets):
                 fresh_fns.add(fn.name)
         if fresh_fns == before:
             break
@@ -318,12 +319,15 @@ def run(ctx):
             if last in ADDERS and e.args:
                 return kinds_of_expr(e.args[0], fn, depth + 1)
             return {'?'}
+        if isinstance(e, ast.Constant) and e.value is None:
+            return set()            # "no step": what receives it tests for None before use (a missing test is a crash, not a renumbering)
         if isinstance(e, ast.Name):
-            out = set()
+            out, seen = set(), False
             for n in walk_no_nested(fn):
                 if isinstance(n, ast.Assign) and any(isinstance(t, ast.Name) and t.id == e.id for t in n.targets):
+                    seen = True
                     out |= kinds_of_expr(n.value, fn, depth + 1)
-            return out or {'?'}
+            return out if seen else {'?'}
         return {'?'}
     for _ in range(3):
         for f, fn in all_fns:
